@@ -70,7 +70,7 @@ def module_constant(ex, name):
     if val != val or val in (float("inf"), float("-inf")):
         return None
     from fractions import Fraction
-    fr = Fraction(val)  # the exact value of the double
+    fr = Fraction(repr(val))  # the decimal literal as written (A2: floats are reals), as for literals inside functions
     return V(REAL, z3.RealVal(f"{fr.numerator}/{fr.denominator}"))
 
 
@@ -519,6 +519,16 @@ def builtin_call(ex, ev: Eval, node, fname):
         from fractions import Fraction
         rt, at = (z3.RealVal(str(Fraction(tol[k]).limit_denominator(10**18))) for k in ("rel_tol", "abs_tol"))
         return V(BOOL, z3.Or(x == y, ab(x - y) <= mx(rt * mx(ab(x), ab(y)), at)))
+    if fname == "range" and len(a) in (1, 2) and not node.keywords:
+        # range(...) used as a value (sorted(range(n), ..), list(range(n))): the list lo, lo+1, .., hi-1
+        lo = z3.IntVal(0) if len(a) == 1 else coerce_to(ev.expr(a[0]), INT).z
+        hi = coerce_to(ev.expr(a[-1]), INT).z
+        r = ex.new_sym(TList(INT), "rangev", ev.st)
+        j = z3.Int("j!rng")
+        ev.st.pc.append(list_len(r) == z3.If(hi > lo, hi - lo, 0))
+        ev.st.pc.append(z3.ForAll([j], z3.Implies(z3.And(0 <= j, j < hi - lo), z3.Select(list_arr(r), j) == lo + j),
+                                  patterns=[z3.Select(list_arr(r), j)]))
+        return r
     if fname == "enumerate" and len(a) == 1:
         xs = ev.expr(a[0])
         if isinstance(xs.t, TList):
@@ -734,6 +744,14 @@ def method_call(ex, ev: Eval, node, recv_node, meth):
     except Unsupported:
         return None
     a = node.args
+    if isinstance(recv.t, TU) and recv.t.uname == "opaque" and meth in ("lower", "upper", "strip", "replace", "casefold", "lstrip", "rstrip"):
+        for x in a:
+            ev.expr(x)
+        return ex.new_sym(TU("opaque"), "strm", ev.st)  # strings are not interpreted: the result is some string
+    if isinstance(recv.t, TU) and recv.t.uname == "opaque" and meth in ("endswith", "startswith", "isdigit", "isalpha"):
+        for x in a:
+            ev.expr(x)
+        return ex.new_sym(BOOL, "strp", ev.st)  # ... and a predicate on it is arbitrary (every branch is explored)
     if isinstance(recv.t, TU) and recv.t.uname == "rng":
         # seeded Random instance: results are arbitrary values of the documented range (all seeds at once)
         if meth == "random" and not a:
@@ -1025,6 +1043,12 @@ def do_sorted(ex, ev, node, xs_value=None):
                                                z3.And(0 <= z3.Select(inv.z, j_), z3.Select(inv.z, j_) < n,
                                                       z3.Select(ra, z3.Select(inv.z, j_)) == z3.Select(list_arr(xs), j_))),
                               patterns=[z3.Select(list_arr(xs), j_), z3.Select(inv.z, j_)]))
+
+    # perm and inv are mutually inverse bijections of 0..n-1 (sorted returns a permutation of its input)
+    ev.st.pc.append(z3.ForAll([k], z3.Implies(z3.And(0 <= k, k < n), z3.Select(inv.z, z3.Select(perm.z, k)) == k),
+                              patterns=[z3.Select(perm.z, k)]))
+    ev.st.pc.append(z3.ForAll([j_], z3.Implies(z3.And(0 <= j_, j_ < n), z3.Select(perm.z, z3.Select(inv.z, j_)) == j_),
+                              patterns=[z3.Select(inv.z, j_)]))
 
     def keyof(elem: V):
         if "key" not in kw:
